@@ -13,24 +13,29 @@ Import ListNotations.
 Local Open Scope N_scope.
 
 (* a restart before the events flagged true *)
-Definition abft_ops_r (lam : fev -> N) (vals : list (N * N)) (rs : list bool) (D : list fev) : list op :=
-  flat_map (fun p : bool * fev => (if fst p then [OpR] else []) ++ [OpB (to_aevent lam vals (snd p)); OpP (to_aevent lam vals (snd p))])
+Definition abft_ops_r_ep (ep : N) (lam : fev -> N) (vals : list (N * N)) (rs : list bool) (D : list fev) : list op :=
+  flat_map (fun p : bool * fev => (if fst p then [OpR] else []) ++ [OpB (to_aevent ep lam vals (snd p)); OpP (to_aevent ep lam vals (snd p))])
            (combine rs D).
+Definition abft_ops_r := abft_ops_r_ep 1.
 (* the observations without the restarts *)
 Definition no_restart (o : AbftRun.obs) : bool := match o with ObsR _ _ _ _ => false | _ => true end.
-Definition clean_restart (o : AbftRun.obs) : Prop :=
-  match o with ObsR r bl _ ep => r = None /\ bl = [] /\ ep = 1 | _ => True end.
+Definition clean_restart_ep (ep : N) (o : AbftRun.obs) : Prop :=
+  match o with ObsR r bl _ ep' => r = None /\ bl = [] /\ ep' = ep | _ => True end.
+Definition clean_restart : AbftRun.obs -> Prop := clean_restart_ep 1.
 Definition abft_run_r (cap : nat) (lam : fev -> N) (rs : list bool) : impl_model :=
   fun vals D => render (filter no_restart (run cap [] sample (start 1 vals) (abft_ops_r lam vals rs D))).
 
 Section Restart.
 Variable cap : nat.
+Variable ep : N.
 Variable lam : fev -> N.
 Variable vals : list (N * N).
 Hypothesis Hvals : vals_ok vals.
+Variable J : N -> Prop.
 Variable K : N.
+Hypothesis HJ : forall a, J a -> id_fresh K a.
 Notation nv := (length vals).
-Notation Sim := (Sim lam vals K).
+Notation Sim := (Sim ep lam vals J K).
 
 Lemma Seg_nil_inv T L B L1 : Seg vals T L B L1 ->
   (forall a, decide node nd_id nd_cr nd_fr nd_spf (fc_n (map snd vals) (ElectionSpec.quorum_of (map snd vals))) (map snd vals)
@@ -38,11 +43,11 @@ Lemma Seg_nil_inv T L B L1 : Seg vals T L B L1 ->
   B = [] /\ L1 = L.
 Proof. intros H N0. destruct H as [L|L a t L1 Hd _]; [auto | exfalso; exact (N0 _ Hd)]. Qed.
 
-Lemma restart_step i T Dr B : Sim i T Dr B -> few_forkers vals T ->
-  exists i', step cap [] sample i OpR = (ObsR None [] (l_ldf (i_st i')) 1, i', false) /\ Sim i' T Dr B /\ l_ctr (i_st i') = 0.
+Lemma restart_step pol sf (Hsf : forall f a ch dl, policy_fn pol ep f a ch dl = sf f) i T Dr B : Sim i T Dr B -> few_forkers vals T ->
+  exists i', step cap pol sample i OpR = (ObsR None [] (l_ldf (i_st i')) ep, i', false) /\ Sim i' T Dr B /\ l_ctr (i_st i') = 0.
 Proof.
   intros [W Dn FR CT PR SG CH] Hff.
-  pose proof (Done_undecided lam vals Hvals T Dr _ _ Hff W _ Dn) as Und.
+  pose proof (Done_undecided ep lam vals Hvals T Dr _ _ Hff W _ Dn) as Und.
   destruct Dn as [S [[C CI I0 N0] AV]].
   set (st := i_st i) in *. set (es := i_es i) in *.
   assert (Hnv : (0 < nv)%nat).
@@ -50,22 +55,26 @@ Proof.
   cbn [step]. unfold bootstrap. cbn [persist p_epoch p_vals p_ldf p_roots p_conf p_idx]. fold st es.
   set (st0 := {| l_epoch := l_epoch st; l_vals := l_vals st; l_ldf := l_ldf st; l_roots := l_roots st; l_conf := l_conf st;
                  l_idx := l_idx st; l_fcc := []; l_el := el_reset (l_vals st) (l_ldf st + 1); l_ctr := 0 |}).
-  assert (E0 : ES lam vals T Dr es 0 st0 (fun _ => False)).
+  assert (E0 : ES ep lam vals T Dr es (stale J 0) st0 (fun _ => False)).
   { destruct C as [A Bv Cc D E F G H Ir]. constructor.
     - constructor; auto.
     - intros a b r Hc. discriminate.
     - cbn [st0 l_ldf l_el]. rewrite Bv. apply EI_reset.
     - cbn [st0 l_el]. rewrite Bv. unfold choose_atropos, el_reset. cbn [el_vals el_decided el_frame].
       destruct vals as [|[x w] t]; [cbn in Hnv; lia | reflexivity]. }
-  assert (NT0 : forall m, In m T -> ~ is_temp 0 (nd_id m)).
-  { intros m _ (ep & lm & c & t & Bc & _). lia. }
-  destruct (boot_sim cap lam vals Hvals T Dr es 0 Hff NT0 W (roots_fuel st0) st0 _ [] E0) as [bl [st' [EB [D' [SG' [BO [RR CC]]]]]]].
+  assert (NT0 : forall m, In m T -> ~ stale J 0 (nd_id m)).
+  { intros m Hm [(ep0 & lm & c & t & Bc & _)|Jm]; [lia|].
+    destruct (node_event vals T Dr m W Hm) as [e0 [He0 [E0' _]]]. apply (proj2 (FR e0 He0)). rewrite E0'. exact Jm. }
+  destruct (boot_sim cap ep lam vals Hvals T Dr es (stale J 0) Hff NT0 W (policy_fn pol) sf Hsf (roots_fuel st0) st0 _ [] E0)
+    as [r [bl [st' [L [EB [SG' [BO [EN RF]]]]]]]].
   { unfold roots_fuel. pose proof (cnt_from_le (l_roots st0) (l_ldf st0 + 1)). lia. }
   { exact Hnv. }
   cbn [app] in EB. rewrite EB.
-  destruct (Seg_nil_inv T _ _ _ SG' Und) as [Ebl Eldf]. apply map_eq_nil in Ebl. subst bl.
-  assert (Ep' : l_epoch st' = 1).
-  { destruct D' as [S' [[C' _ _ _] _]]. apply (co_epoch _ _ _ _ _ _ _ C'). }
+  destruct (Seg_nil_inv T _ _ _ SG' Und) as [Ebl EL]. apply map_eq_nil in Ebl. subst bl.
+  destruct EN as [(D' & Eldf & _ & RR & CC)|(nv' & Lt & _)]; [|rewrite EL in Lt; lia].
+  rewrite EL in Eldf. symmetry in Eldf.
+  assert (Ep' : l_epoch st' = ep).
+  { destruct D' as [S' [[C' _ _ _] _]]. apply (co_epoch _ _ _ _ _ _ _ _ C'). }
   rewrite Ep'. cbn [sealed_in existsb].
   exists {| i_st := st'; i_es := es; i_proc := i_proc i |}. split; [reflexivity|]. cbn [i_st].
   split; [|rewrite CC; reflexivity].
@@ -77,12 +86,12 @@ Qed.
 
 (* ---------- runs with restarts ---------- *)
 Lemma run_sim_r : forall D rs i T Dr B, length rs = length D -> Sim i T Dr B -> codes_ok (snd (add_events vals T D)) ->
-  (forall e, In e D -> id_fresh K (eid (fe e))) -> few_forkers vals (fst (add_events vals T D)) ->
+  (forall e, In e D -> id_fresh K (eid (fe e)) /\ ~ J (eid (fe e))) -> few_forkers vals (fst (add_events vals T D)) ->
   N.of_nat (length D) < 2 ^ 192 -> l_ctr (i_st i) + N.of_nat (length D) < 2 ^ 192 ->
   l_ctr (i_st i) + N.of_nat (length D) <= K ->
-  let os := run cap [] sample i (abft_ops_r lam vals rs D) in
+  let os := run cap [] sample i (abft_ops_r_ep ep lam vals rs D) in
   exists i' B', render (filter no_restart os) = (snd (add_events vals T D), B') /\
-    Forall clean_restart os /\
+    Forall (clean_restart_ep ep) os /\
     Sim i' (fst (add_events vals T D)) (rev D ++ Dr) (B ++ B').
 Proof.
   induction D as [|e D IH]; intros rs i T Dr B Hlen HS Hc Hf Hff Hl Hctr HK.
@@ -99,20 +108,20 @@ Proof.
     assert (HffT : few_forkers vals T).
     { eapply few_forkers_sub; [|exact Hff]. intros x Hx. apply Inc. right. exact Hx. }
     (* optional restart *)
-    assert (R0 : exists i0 pre, Sim i0 T Dr B /\ l_ctr (i_st i0) <= l_ctr (i_st i) /\ Forall clean_restart pre /\
+    assert (R0 : exists i0 pre, Sim i0 T Dr B /\ l_ctr (i_st i0) <= l_ctr (i_st i) /\ Forall (clean_restart_ep ep) pre /\
                filter no_restart pre = [] /\
                forall rest, run cap [] sample i ((if r then [OpR] else []) ++ rest) = pre ++ run cap [] sample i0 rest).
     { destruct r.
-      - destruct (restart_step i T Dr B HS HffT) as [i0 [ER [HS0 Ct0]]].
-        exists i0, [ObsR None [] (l_ldf (i_st i0)) 1]. split; [exact HS0|]. split; [lia|].
+      - destruct (restart_step [] (fun _ => None) (fun _ _ _ _ => eq_refl) i T Dr B HS HffT) as [i0 [ER [HS0 Ct0]]].
+        exists i0, [ObsR None [] (l_ldf (i_st i0)) ep]. split; [exact HS0|]. split; [lia|].
         split; [constructor; [cbn; auto | constructor]|]. split; [reflexivity|].
         intros rest. cbn [app run]. rewrite ER. reflexivity.
       - exists i, []. split; [exact HS|]. split; [lia|]. split; [constructor|]. split; [reflexivity|]. intros rest. reflexivity. }
     destruct R0 as [i0 [pre [HS0 [Ct0 [Cl0 [Fl0 Run0]]]]]].
-    destruct (build_step cap lam vals Hvals K i0 T Dr B e HS0 PK CR EW NL FO ltac:(cbn [length] in Hctr; lia) ltac:(cbn [length] in HK; lia))
+    destruct (build_step cap ep lam vals Hvals J K HJ i0 T Dr B e HS0 PK CR EW NL FO ltac:(cbn [length] in Hctr; lia) ltac:(cbn [length] in HK; lia))
       as [i1 [EB [HS1 Ct1]]].
     assert (Hff1 : few_forkers vals (mk_node nv T e :: T)) by (eapply few_forkers_sub; [exact Inc | exact Hff]).
-    destruct (process_step cap lam vals Hvals K i1 T Dr B e HS1 (Hf e (or_introl eq_refl)) PK NL CR EW FO Hff1)
+    destruct (process_step cap ep lam vals Hvals J K i1 T Dr B e HS1 (proj1 (Hf e (or_introl eq_refl))) (proj2 (Hf e (or_introl eq_refl))) PK NL CR EW FO Hff1)
       as [bl [i2 [EP [HS2 Ct2]]]].
     destruct (IH rs i2 (mk_node nv T e :: T) (e :: Dr) (B ++ map blk_obs bl) Hlen HS2) as [i' [B' [ER [CL HS']]]].
     { rewrite AEs. cbn [snd]. intros r0 Hr0. apply Hc. right. exact Hr0. }
@@ -123,9 +132,9 @@ Proof.
     { cbn [length] in HK. lia. }
     rewrite AEs in ER, HS'. cbn [fst snd] in ER, HS'.
     exists i', (map blk_obs bl ++ B').
-    assert (Eops : abft_ops_r lam vals (r :: rs) (e :: D) =
-                   (if r then [OpR] else []) ++ OpB (to_aevent lam vals e) :: OpP (to_aevent lam vals e) :: abft_ops_r lam vals rs D).
-    { unfold abft_ops_r. cbn [combine flat_map fst snd]. rewrite <- app_assoc. reflexivity. }
+    assert (Eops : abft_ops_r_ep ep lam vals (r :: rs) (e :: D) =
+                   (if r then [OpR] else []) ++ OpB (to_aevent ep lam vals e) :: OpP (to_aevent ep lam vals e) :: abft_ops_r_ep ep lam vals rs D).
+    { unfold abft_ops_r_ep. cbn [combine flat_map fst snd]. rewrite <- app_assoc. reflexivity. }
     cbn zeta. rewrite Eops, Run0. cbn [run]. rewrite EB. cbn [run]. rewrite EP.
     split; [|split].
     + rewrite filter_app, Fl0. cbn [app filter no_restart render]. cbn zeta in ER. rewrite ER, Hh. reflexivity.
@@ -151,19 +160,19 @@ Proof.
       destruct (add_event vals [] e0) as [T1 r] eqn:AE. destruct (add_events vals T1 D0) as [T2 rsl].
       cbn [snd] in Hacc. assert (Hr : fst r = 0) by (apply Hacc; left; reflexivity). destruct r as [c h]. cbn in Hr. subst c.
       destruct (add_event_accept vals [] e0 T1 h AE) as (_ & _ & _ & CR & _). lia. }
-    destruct (run_sim_r cap lam vals Hvals (N.of_nat (length D)) D rs (start 1 vals) [] [] [] Hlen
-                (Sim_start lam vals Hvals _ Hnv) Hacc Hfresh Hff Hl) as [i' [B' [ER [CL HS]]]].
+    destruct (run_sim_r cap 1 lam vals Hvals (fun _ => False) (N.of_nat (length D)) (fun a (F : False) => match F with end) D rs (start 1 vals) [] [] [] Hlen
+                (Sim_start 1 lam vals Hvals (fun _ => False) (N.of_nat (length D)) (fun a (F : False) => match F with end) Hnv) Hacc (fun e He => conj (Hfresh e He) (fun F => F)) Hff Hl) as [i' [B' [ER [CL HS]]]].
     { cbn [start i_st genesis l_ctr]. lia. }
     { cbn [start i_st genesis l_ctr]. lia. }
     assert (E1 : abft_run_r cap lam rs vals D = reference vals D).
-    { unfold abft_run_r. cbn zeta in ER. rewrite ER. unfold reference. unfold table in Hff.
+    { unfold abft_run_r, abft_ops_r. cbn zeta in ER. rewrite ER. unfold reference. unfold table in Hff.
       destruct (add_events vals [] D) as [T rsl] eqn:AEs. cbn [fst snd] in *. f_equal.
       destruct HS as [W Dn _ _ _ SG CH]. cbn [app] in SG, CH.
       rewrite (cheat_map vals T B' CH). f_equal.
       unfold r_blocks, blocks_spec. symmetry.
       destruct (seg_bound vals T 0 (map fst B') _ SG) as [EL BD].
       apply (blocks_of_seg cap vals T (map fst B') 0 _ _ SG).
-      + apply (Done_undecided lam vals Hvals T (rev D ++ []) _ _ Hff W _ Dn).
+      + apply (Done_undecided 1 lam vals Hvals T (rev D ++ []) _ _ Hff W _ Dn).
       + destruct BD as [->|BD]; [cbn; lia | lia]. }
     split; [exact E1|]. split; [rewrite E1, LF; reflexivity | exact CL].
 Qed.
